@@ -8,6 +8,7 @@ XLSForm reference says each cell means (`src` facts) for the TLA+ envelope to co
 from __future__ import annotations
 
 import random
+import re
 
 from harness.abstract import classify_default
 from harness.rowtrace import norm_src_expr
@@ -105,11 +106,16 @@ def build(shapes, seed=0, mode="binds", formname="data", homonyms=False):
         shapes = [(s, g or f"n{i + 2}") for i, (s, g) in enumerate(shapes)]
         shapes, dups = _homonymize(shapes, rnd)
     f = LForm(rnd)
+    dotted = rnd.random() < 0.25      # names with dots and hyphens (legal XML names; references to them must still be recognised)
     n = 1
     lists_used = set()
     for shape, given in shapes:
         n += 1
         name = given or f"n{n}"
+        if dotted and re.fullmatch(r"n\d+", name):
+            name = f"{name}.a-b"
+            if (given or f"n{n}") in dups:
+                dups = dups | {name}
         row = {}
         if shape == "blank":
             f.rows.append(row)
